@@ -157,6 +157,30 @@ def r_polarity(repo, rep, R='R17.1'):
               'also modifies %s' % [src(n)[:50] for n, _, _ in muts])
 
 
+def r_validation_hands_back(repo, rep, R='R17.2'):
+    """the validation step returns the caller's own objects (wrapped in one-element lists for a single sentence): the
+    filter writes into the matrices it was given and the scores that are kept are the scores that were passed in --
+    a converted or copied matrix (another dtype, a contiguous copy) is neither"""
+    mod = repo.module(REL)
+    fn = mod.get('_type_check')
+    pd, ps_ = [a.arg for a in fn.args.args][:2]
+    w = '%s:%s %s' % (REL, fn.lineno, fn.name)
+    good = {('tuple', (N(pd), N(ps_))), ('tuple', (('list', (N(pd),)), ('list', (N(ps_),))))}
+    bad = []
+    n = 0
+    for st, o in SymExec(fn, unroll=1).run():
+        if o != 'return':
+            continue
+        n += 1
+        if st.ret not in good and show(st.ret) not in bad:
+            bad.append(show(st.ret)[:120])
+    if not n:
+        raise AnalysisError('%s: %s never returns' % (REL, fn.name))
+    rep.check(not bad, R, w, '_type_check:hands-back', 'the validated document and score matrices are handed back as they were given (%d return paths)' % n,
+              '%s returns %s instead of the objects it was given: the filter then changes a copy (the caller\'s matrices stay unfiltered) and the scores '
+              'kept are converted values, not the original ones' % (fn.name, bad[:2]))
+
+
 def r_data(repo, rep, R='R17.3', only_well_formed=False):
     n = 0
     files = {}
@@ -251,6 +275,7 @@ def check(repo, rep, tier):
     rep.rule('R17.2', 'effects of apply_category_filters: one store, right row, ids by position, validated first, inputs returned')
     rep.rule('R17.3', 'shipped data well formed, targets unique, dictionary within inventory')
     r_polarity(repo, rep)
+    r_validation_hands_back(repo, rep)
     # the inventory and the dictionary meet as parsed categories: a category string must denote the same category
     # however it is spaced (targets.en spells the comma category ', ')
     from .c05 import r_delimiters
